@@ -71,11 +71,14 @@ pub struct NetCfg {
     /// occasional long delay
     pub p_slow: f64,
     pub slow_max_ms: u64,
+    /// when non-empty, loss / duplication / long delays hit only messages whose payload type contains this text
+    #[serde(default)]
+    pub faults_only: String,
 }
 
 impl Default for NetCfg {
     fn default() -> Self {
-        NetCfg { lat_min_us: 200, lat_max_us: 3_000, p_drop_req: 0.0, p_drop_resp: 0.0, p_dup: 0.0, timeout_ms: 3_000, p_slow: 0.0, slow_max_ms: 0 }
+        NetCfg { lat_min_us: 200, lat_max_us: 3_000, p_drop_req: 0.0, p_drop_resp: 0.0, p_dup: 0.0, timeout_ms: 3_000, p_slow: 0.0, slow_max_ms: 0, faults_only: String::new() }
     }
 }
 
@@ -174,7 +177,7 @@ fn install_transport() {
                 let c = n.cfg.clone();
                 let mut lat = |rng: &mut Rng| {
                     let mut l = rng.range(c.lat_min_us, c.lat_max_us.max(c.lat_min_us));
-                    if c.p_slow > 0.0 && rng.chance(c.p_slow) {
+                    if c.p_slow > 0.0 && rng.chance(c.p_slow) && (c.faults_only.is_empty() || ptype.contains(c.faults_only.as_str())) {
                         l += rng.range(1, c.slow_max_ms.max(1)) * 1000;
                         sim::count("net.slow", 1);
                     }
@@ -182,9 +185,10 @@ fn install_transport() {
                 };
                 let lat1 = lat(&mut n.rng);
                 let lat2 = lat(&mut n.rng);
-                let drop_req = n.rng.chance(c.p_drop_req);
-                let drop_resp = n.rng.chance(c.p_drop_resp);
-                let dup = n.rng.chance(c.p_dup);
+                let hit = c.faults_only.is_empty() || ptype.contains(c.faults_only.as_str());
+                let drop_req = n.rng.chance(c.p_drop_req) && hit;
+                let drop_resp = n.rng.chance(c.p_drop_resp) && hit;
+                let dup = n.rng.chance(c.p_dup) && hit;
                 (target, blocked, lat1, lat2, drop_req, drop_resp, dup, c.timeout_ms, dst_id)
             });
             sim::count("net.sent", 1);
